@@ -613,7 +613,8 @@ class CHECK(vlib.Check):
             hd, _, body = c.partition("|")
             h = hd.split(",")
             if len(h) >= 2:
-                d["kind:" + h[0] + h[1]] = d.get("kind:" + h[0] + h[1], 0) + 1
+                kk = "kind:T" if h[0] == "T" else "kind:" + h[0] + h[1]
+                d[kk] = d.get(kk, 0) + 1
             for o in body.split(";"):
                 k = "op:" + o.split(":")[0]
                 d[k] = d.get(k, 0) + 1
